@@ -218,6 +218,66 @@ fn server_rules(cs: &mut Cases) {
             }
         }
     }
+    // a uuid travels as 36 characters of text in JSON and as 16 raw bytes in Smile: the other form is not a value
+    {
+        #[derive(Debug, Clone, PartialEq, Serialize, Deserialize)]
+        struct LUuid {
+            id: conjure_object::Uuid,
+            #[serde(default)]
+            n: i32,
+        }
+        let v = LUuid { id: conjure_object::Uuid::from_u128(0x1234_5678_9abc_4def_8123_4567_89ab_cdef), n: 1 };
+        let as_text = serde_json::json!({"id": "12345678-9abc-4def-8123-456789abcdef", "n": 1});
+        let rows: Vec<(&str, &str, Vec<u8>, bool)> = vec![
+            ("JSON, uuid as text", "application/json", conjure_serde::json::to_vec(&v).unwrap(), true),
+            ("Smile, uuid as 16 bytes", "application/x-jackson-smile", conjure_serde::smile::to_vec(&v).unwrap(), true),
+            ("Smile, uuid as text", "application/x-jackson-smile", serde_smile::to_vec(&as_text).unwrap(), false),
+        ];
+        for (what, ct, body, valid) in rows {
+            let chunks = vec![Chunk::Ok(body)];
+            let (b, a) = (run_std::<LUuid, 256>(Some(ct), &chunks, false), run_std::<LUuid, 256>(Some(ct), &chunks, true));
+            cs.push("std:server-rules", "noop".into(), "noop".into(), true, format!("StdRequestDeserializer::<LUuid> {}", what));
+            match (b, a) {
+                (Ok(b), Ok(a)) => {
+                    if a != b {
+                        cs.fail_last("server:blocking-async-differ", format!("blocking says {:?}, async says {:?}", b, a));
+                    } else if valid != b.starts_with("handler") {
+                        cs.fail_last(if valid { "server:valid-body-rejected" } else { "server:invalid-body-accepted" }, format!("{}: {:?}", what, b));
+                    }
+                }
+                (b, a) => cs.fail_last("server:panic", format!("panicked: blocking {:?} async {:?}", b, a)),
+            }
+        }
+    }
+    // a Content-Type is one media type: a list, or a second Content-Type line, names no encoding
+    {
+        use conjure_http::server::conjure::OptionalRequestDeserializer;
+        let lines: [&[&str]; 6] = [&["application/json, text/plain"], &["application/json,"], &["@@@, application/json"], &["bogus", "application/json"], &["application/json", "application/json"], &["text/plain", "application/json"]];
+        for ls in lines {
+            let r = guarded(|| {
+                let rt = ConjureRuntime::new();
+                let mut h = HeaderMap::new();
+                for l in ls {
+                    h.append(CONTENT_TYPE, HeaderValue::from_str(l).unwrap());
+                }
+                let it = || vec![Ok::<_, Error>(Bytes::from_static(b"[1,2]"))].into_iter();
+                let std: Result<Vec<i32>, String> = <StdRequestDeserializer as DeserializeRequest<Vec<i32>, _>>::deserialize(&rt, &h, it()).map_err(|e| classify(&e));
+                let opt: Result<Option<Vec<i32>>, String> = <OptionalRequestDeserializer as DeserializeRequest<Option<Vec<i32>>, _>>::deserialize(&rt, &h, it()).map_err(|e| classify(&e));
+                (std, opt)
+            });
+            cs.push("std:content-type-lines", "noop".into(), "noop".into(), true, format!("Content-Type lines {:?} with the body [1,2]", ls));
+            match r {
+                Err(p) => cs.fail_last("server:panic", p),
+                Ok((std, opt)) => {
+                    // two identical valid lines: `HeaderMap::get` reads the first, which names JSON — accepted either way
+                    let may_accept = ls.len() == 2 && ls[0] == "application/json";
+                    if !may_accept && (std.is_ok() || opt.is_ok()) {
+                        cs.fail_last("server:content-type-list-accepted", format!("Content-Type lines {:?} are not one media type, yet the body is decoded: {:?} / {:?}", ls, std, opt));
+                    }
+                }
+            }
+        }
+    }
     // only registered encodings decode a body
     let json_body = b"[1,2]".to_vec();
     let smile_body = serde_smile::to_vec(&vec![1, 2]).unwrap();
@@ -237,6 +297,71 @@ fn server_rules(cs: &mut Cases) {
                     }
                 }
                 (b, a) => cs.fail_last("server:panic", format!("panicked: blocking {:?} async {:?}", b, a)),
+            }
+        }
+    }
+}
+
+/// `harness deep <server|client> <json|smile> <depth>`: a body of `depth` nested arrays (unterminated, or closed) read
+/// as `any` by the server's request deserializer / the client's response decoder; prints what happened
+pub fn deep_main(args: &[String]) -> i32 {
+    let side = args.first().map(|s| s.as_str()).unwrap_or("server");
+    let smile = args.get(1).map(|s| s == "smile").unwrap_or(false);
+    let depth: usize = args.get(2).and_then(|d| d.parse().ok()).unwrap_or(100_000);
+    let closed = args.get(3).map(|s| s == "closed").unwrap_or(false);
+    let body: Vec<u8> = if smile {
+        // Smile header, then `depth` START_ARRAY tokens (0xF8), optionally END_ARRAY (0xF9) as many times
+        let mut b = vec![b':', b')', b'\n', 0x01];
+        b.extend(std::iter::repeat(0xF8u8).take(depth));
+        if closed {
+            b.extend(std::iter::repeat(0xF9u8).take(depth));
+        }
+        b
+    } else {
+        let mut b: Vec<u8> = std::iter::repeat(b'[').take(depth).collect();
+        if closed {
+            b.extend(std::iter::repeat(b']').take(depth));
+        }
+        b
+    };
+    let ct = if smile { "application/x-jackson-smile" } else { "application/json" };
+    let chunks: Vec<Result<Bytes, Error>> = body.chunks(65536).map(|c| Ok(Bytes::from(c.to_vec()))).collect();
+    let out = if side == "server" {
+        let rt = ConjureRuntime::new();
+        let mut h = HeaderMap::new();
+        h.insert(CONTENT_TYPE, HeaderValue::from_str(ct).unwrap());
+        let r: Result<conjure_object::Any, Error> = <StdRequestDeserializer as DeserializeRequest<conjure_object::Any, _>>::deserialize(&rt, &h, chunks.into_iter());
+        match r {
+            Ok(_) => "handler".to_string(),
+            Err(e) => format!("rejected: {}", classify(&e)),
+        }
+    } else {
+        let resp = Response::builder().status(200).header(CONTENT_TYPE, "application/json").body(chunks.into_iter()).unwrap();
+        match decode_serializable_response::<conjure_object::Any, _>(resp) {
+            Ok(_) => "value".to_string(),
+            Err(_) => "error".to_string(),
+        }
+    };
+    println!("{}", out);
+    0
+}
+
+/// runs the probe above in a child process and reports an abort (stack overflow) as what it is
+fn deep_case(cs: &mut Cases, side: &str, fmt: &str, depth: usize, closed: bool) {
+    let me = std::env::current_exe().unwrap();
+    let o = std::process::Command::new(&me).args(["deep", side, fmt, &depth.to_string(), if closed { "closed" } else { "open" }]).output();
+    cs.push(&format!("{}:deep-nesting", side), "noop".into(), "noop".into(), true, format!("a {} body of {} nested arrays ({}) read as `any` by the {}", fmt, depth, if closed { "closed" } else { "unterminated" }, side));
+    match o {
+        Err(e) => cs.fail_last("deep:harness", e.to_string()),
+        Ok(o) => {
+            let text = String::from_utf8_lossy(&o.stdout).trim().to_string();
+            if !o.status.success() {
+                cs.fail_last(&format!("{}:deep-nesting-aborts", side), format!("a {} body of {} nested arrays makes the {} abort the process ({:?}; {}) instead of returning an error", fmt, depth, side, o.status, String::from_utf8_lossy(&o.stderr).lines().last().unwrap_or("")));
+            } else if text == "handler" || text == "value" {
+                // a closed document of moderate depth may be accepted; an unterminated one never
+                if !closed {
+                    cs.fail_last(&format!("{}:invalid-body-accepted", side), format!("an unterminated {} body of {} nested arrays is accepted", fmt, depth));
+                }
             }
         }
     }
@@ -686,6 +811,9 @@ pub fn cases(seed: u64, tier: Tier, client: bool) -> Cases {
             server_case::<Vec<i32>, 10>(&mut cs, "std:random", ct, &ch);
         }
         server_rules(&mut cs);
+        for (fmt, depth, closed) in [("json", 100usize, true), ("json", 400_000, false), ("json", 400_000, true), ("smile", 400_000, false), ("smile", 100_000, true)] {
+            deep_case(&mut cs, "server", fmt, depth, closed);
+        }
         // which deserializer the generated server trait names for a body argument (optional / binary / standard, with or
         // without a size-limit tag): the generated source for seeded definitions against Model/Emit.lean and the types
         crate::ops::emit::add(&mut cs, &mut rng, tier);
@@ -730,6 +858,9 @@ pub fn cases(seed: u64, tier: Tier, client: bool) -> Cases {
             }
         }
         crate::ops::c18c::add(&mut cs, &mut rng, tier);
+        for (depth, closed) in [(100usize, true), (400_000, false), (400_000, true)] {
+            deep_case(&mut cs, "client", "json", depth, closed);
+        }
     }
     cs
 }
